@@ -204,7 +204,8 @@ pub fn run_window_json(c: &WinJson, st: &mut Stats) -> CaseResult {
 	// the generic view of the same text (keeps the last duplicate; only used when there are none)
 	let v: Option<Value> = serde_json::from_str(&c.text).ok();
 	let dup = c.text.matches("\"index\"").count() > 1 || c.text.matches("\"buf\"").count() > 1;
-	let well_typed = v.as_ref().map_or(false, |v| v["buf"].is_array() && v["index"].as_u64().map_or(false, |i| i <= PeriodType::MAX as u64)) && !dup;
+	let well_typed = v.as_ref().map_or(false, |v| v["buf"].as_array().map_or(false, |a| a.iter().all(|x| x.as_u64().map_or(false, |y| y <= u32::MAX as u64))) && v["index"].as_u64().map_or(false, |i| i <= PeriodType::MAX as u64))
+		&& !dup;
 	match parsed {
 		Ok(w) => {
 			ensure!(!dup, "C13:window-json-dup", "a text with duplicate fields was accepted");
